@@ -72,6 +72,9 @@ def tasks(tier):
     for lm in (False, True, 'mixed'):
         ts.append({'mode': 'boh', 'lens': [2, 2], 'lm': lm})
         ts.append({'mode': 'boh', 'lens': [1, 2], 'lm': lm})
+    # bags that begin with the empty transcript (its mass has no arc of its own: the known finding), then non-empty ones
+    ts.append({'mode': 'boh', 'lens': [0, 2], 'lm': False})
+    ts.append({'mode': 'boh', 'lens': [0, 1, 1], 'lm': True})
     ts.sort(key=lambda t: -sum(x * x for x in t.get('lens', [1])))
     return ts
 
